@@ -12,4 +12,5 @@ done
 go run ./cmd/rewrite -out /verif/.work/ov/sync sync >/dev/null && go build -race -tags verif_sched -overlay /verif/.work/ov/sync/ov.json -o /verif/.work/bin/c13w ./c13w || exit 1
 go run ./cmd/rewrite -out /verif/.work/ov/maps maprange >/dev/null && go build -tags verif_maps -overlay /verif/.work/ov/maps/ov.json -o /verif/.work/bin/check_verif_maps ./cmd/check || exit 1
 go run ./cmd/rewrite -out /verif/.work/ov/gc gc >/dev/null && go build -tags verif_gc -overlay /verif/.work/ov/gc/ov.json -o /verif/.work/bin/check_verif_gc ./cmd/check || exit 1
+go run ./cmd/rewrite -out /verif/.work/ov/time time >/dev/null && go build -tags verif_time -overlay /verif/.work/ov/time/ov.json -o /verif/.work/bin/check_verif_time ./cmd/check || exit 1
 echo "setup ok"
